@@ -495,6 +495,18 @@ def predict_bounded_instance():
             for f in range(F):
                 for k in range(K):
                     lp[f, k] = cacg_m.ComplexAngularCentralGaussian(covariance_eigenvectors=V[f, k], covariance_eigenvalues=lam[f, k]).log_pdf(y[f])
+            if inp['seed'] % 2 and K >= 2:
+                # source activity mask: inactive sources get exactly zero, the active ones share the Bayes posterior; a frame
+                # with no active source is all zero
+                act = rng.rand(F, K, T) < 0.7
+                act[:, :, 0] = False
+                act[:, 0, 1] = True
+                post = model.predict(y, source_activity_mask=act)
+                joint_m = np.where(act, np.log(w_b) + lp, -np.inf)
+                with np.errstate(all='ignore'):
+                    ref_m = np.exp(joint_m - logsumexp(joint_m, axis=-2, keepdims=True))
+                ref_m = np.where(act.any(-2, keepdims=True), ref_m, 0.0)
+                return {'post': np.asarray(post), 'ref': ref_m, 'kind': 'cacgmm-masked', 'shape': (F, K, T), 'masked': True}
             post = model.predict(y)
         elif kind == 'cwmm':
             mode = unit(rng.normal(size=(F, K, D)) + 1j * rng.normal(size=(F, K, D)))
@@ -568,7 +580,10 @@ def predict_bounded_instance():
         if p.shape != out['shape']:
             return
         yield 'finite-in-[0,1][%s]' % out['kind'], bool(np.all(np.isfinite(p)) and np.all(p >= 0) and np.all(p <= 1 + 1e-12))
-        yield 'sums-to-one[%s]' % out['kind'], bool(np.allclose(p.sum(-2), 1.0, rtol=0, atol=1e-9))
+        if out.get('masked'):
+            yield 'sums-to-one-or-zero[%s]' % out['kind'], bool(np.allclose(p.sum(-2), ref.sum(-2), rtol=0, atol=1e-9))
+        else:
+            yield 'sums-to-one[%s]' % out['kind'], bool(np.allclose(p.sum(-2), 1.0, rtol=0, atol=1e-9))
         yield 'bayes-rule-on-the-stored-parameters[%s]' % out['kind'], bool(np.allclose(p, ref, rtol=1e-6, atol=1e-9))
 
     return Instance('C01', 'pb_bss.distribution.*:predict', 'bounded-public-predict-is-bayes-rule', make, call, ensures, mode='bounded', bounded_n=90,
@@ -597,7 +612,7 @@ def fit_predict_degenerate_bounded_instance(pinned=False):
             return {'model': B.choose('model', ['cbmm']), 'data': B.choose('data', ['few-frames']), 'K': B.choose('K', [1]), 'it': B.choose('it', [1]),
                     'wca': B.choose('wca', [(-3,)]), 'norm': B.choose('norm', ['eigenvalue']), 'seed': B.choose('seed', [707]), 'd': B.given('d', np.zeros(1))}
         return {'model': B.choose('model', ['cacgmm', 'cwmm', 'gmm', 'vmfmm', 'gcacgmm', 'vmfcacgmm', 'cacgmm', 'cbmm']),
-                'data': B.choose('data', ['generic', 'zero-bin', 'zero-bin', 'zero-frames', 'duplicated', 'collinear', 'few-frames', 'tiny', 'huge']),
+                'data': B.choose('data', ['generic', 'zero-bin', 'zero-bin', 'zero-frames', 'duplicated', 'collinear', 'few-frames', 'tiny', 'huge', 'zero-embedding', 'cancelling']),
                 'K': B.choose('K', [1, 2, 3]), 'it': B.choose('it', [1, 1, 2, 4]), 'wca': B.choose('wca', [(-1,), (-3,), (-3, -1)]),
                 'norm': B.choose('norm', ['eigenvalue', 'trace', False]), 'seed': B.choose('seed', list(range(3000))), 'd': B.given('d', np.zeros(1))}
 
@@ -622,6 +637,16 @@ def fit_predict_degenerate_bounded_instance(pinned=False):
             y = y * 1e150
         emb = rng.normal(size=(F, N, 3))
         init = rng.dirichlet(np.ones(K), size=(F, N)).transpose(0, 2, 1).copy()
+        if data == 'zero-embedding':
+            emb = np.zeros_like(emb)
+            if model == 'vmfmm':
+                y = np.zeros_like(y)
+        elif data == 'cancelling':
+            # directions that cancel exactly under equal affiliations: zero resultant with non-zero frames
+            emb[:, 1::2] = -emb[:, ::2][:, :emb[:, 1::2].shape[1]]
+            init = np.full_like(init, 1.0 / K)
+            if model == 'vmfmm':
+                y[:, 1::2] = -y[:, ::2][:, :y[:, 1::2].shape[1]]
         if model == 'cbmm':
             F1 = slice(0, 1)
             y, init, it = y[F1], init[F1], 1
